@@ -174,7 +174,18 @@ HandleElementResult SaslManager::handleElement(const QDomElement &el)
         return Rejected;
     }
 
-    if (Success::fromDom(el)) {
+    if (auto success = Success::fromDom(el)) {
+        // the final server message may come as additional data with success (RFC 6120, 6.4.6)
+        if (!m_saslClient->isServerAuthenticated() && !success->data.isEmpty()) {
+            m_saslClient->respond(success->data);
+        }
+        if (!m_saslClient->isServerAuthenticated()) {
+            finish(AuthError {
+                u"Server reported success without authenticating itself"_s,
+                AuthenticationError { AuthenticationError::ProcessingError, {}, {} },
+            });
+            return Finished;
+        }
         finish(QXmpp::Success());
         return Finished;
     } else if (auto challenge = Challenge::fromDom(el)) {
@@ -275,6 +286,17 @@ HandleElementResult Sasl2Manager::handleElement(const QDomElement &el)
             return Finished;
         }
     } else if (auto success = Success::fromDom(el)) {
+        // the final server message comes as additional data with success
+        if (!m_state->sasl->isServerAuthenticated() && success->additionalData) {
+            m_state->sasl->respond(*success->additionalData);
+        }
+        if (!m_state->sasl->isServerAuthenticated()) {
+            finish(AuthError {
+                u"Server reported success without authenticating itself"_s,
+                AuthenticationError { AuthenticationError::ProcessingError, {}, {} },
+            });
+            return Finished;
+        }
         finish(std::move(*success));
         return Finished;
     } else if (auto failure = Failure::fromDom(el)) {
